@@ -2,10 +2,18 @@
 
 use crate::engine::panics::{self, PanicInfo};
 use crate::engine::*;
-use crate::texvm::{self, Capture, VmOptions};
+use crate::texvm::{self, Capture, HState, VmOptions};
 use proptest::prelude::*;
 use serde::{Deserialize, Serialize};
-use texlang::error::Kind;
+use std::cell::{Cell, RefCell};
+use std::collections::HashMap;
+use std::rc::Rc;
+use std::sync::Mutex;
+use texlang::error::{Kind, TracedTexError};
+use texlang::token::trace::{Origin, SourceCodeTrace};
+use texlang::token::Token;
+use texlang::traits::*;
+use texlang::vm;
 
 /// Fixed vocabulary of the token soup. Order matters for replay files: append only.
 fn vocabulary() -> Vec<String> {
@@ -15,13 +23,33 @@ fn vocabulary() -> Vec<String> {
     names.sort();
     for n in names {
         // \newIntArray allocates as much memory as it is told to ("the only constraint on the size is
-        // that you have enough RAM"): it only appears in fixed snippets with small sizes.
+        // that you have enough RAM"): it only appears in fixed items with small sizes.
+        // The two getter providers (names containing NUL) appear in snippets that make the name typeable.
         if n.contains('\u{0}') || n == "newIntArray" || n == "vpcapture" {
             continue;
         }
         v.push(format!("\\{} ", n));
     }
     for s in ["\\a ", "\\b ", "\\c ", "\\undefinedcs ", "\\par ", "~", "{", "}", "#", "#1", "#2", "##", "$", "&", "^", "_", "%", " ", "\n", "\n\n", "=", "-", "+", "`", "'", "\"", ".", ",", "<", ">", ";", "a", "b", "A", "F", "x", "é", "日", "\u{7f}", "^^M", "^^@", "^^?", "^^5a", "^^", "\\^^M", "\\ ", "\\\\", "pt", "sp", "in", "em", "ex", "true", "fil", "fill", "filll", "fillll", "plus ", "minus ", "by ", "to ", "0", "1", "2", "7", "9", "15", "16", "17", "255", "256", "32767", "32768", "65535", "65536", "55296", "57343", "1114111", "1114112", "1073741823", "1073741824", "2147483647", "2147483648", "99999999999999999999", "-1", "-2147483647", "0.5", "16383.99999", "16384", "'777", "'8", "\"FF", "\"G", "`a", "`\\a", "`\\^^M", "`", "\\count1 ", "\\count255 ", "\\dimen1 ", "\\skip1 ", "\\toks1 ", "\\catcode`\\a ", "fa ", "fb ", "nofile ", "a:b ", "x>y ", "/abs/path ", "1 to\\a ", "16 to\\a ", "-1 to\\a "] {
+        v.push(s.to_string());
+    }
+    // ---- second generation (audit B1, B5, B6): appended, so that the items above keep their order ----
+    for s in [
+        // the missing digits, parameter numbers 3..9, category code values that were unassignable
+        "3", "4", "5", "6", "8", "#3", "#4", "#5", "#6", "#7", "#8", "#9", "10", "11", "12", "13", "14", "127", "128",
+        // the missing units and upper-case keywords
+        "pc", "cm", "mm", "bp", "dd", "cc", "PT", "BY ", "FILL", "16383.99999cc ", "2147483647dd ", "16383.99999pc ", "true cm ",
+        // characters: 128, the largest, a four-byte one, raw CRLF, tab
+        "\u{80}", "\u{10FFFF}", "𝔸", "\r\n", "\t", "^^80", "^^ff",
+        // handles made by \newInt / \newIntArray, and \let copies of them
+        "\\vpx ", "\\vpy ", "\\vpi ", "\\newIntArray\\vpx 3\\relax ", "\\newIntArray\\vpy 0\\relax ", "\\newIntArray\\c 2\\relax ", "\\newInt\\vpi ", "\\newInt\\c ", "\\let\\c=\\vpx ", "\\let\\b=\\vpi ", "\\let\\c=\\vpy ", "\\vpx 1=", "\\vpx 3 ",
+        // more files: self-including, unbalanced, invalid character
+        "rec ", "fc ", "fd ", "fe ", "/vpwd/fa ", "fa.tex ",
+        // the two integer parameters that used to be left out, and the script/REPL commands (undefined
+        // unless the run installs them)
+        "\\dumpFormat ", "\\dumpValidate ", "\\newline ", "\\exit ", "\\help ", "\\doc ",
+        "\\catcode`\\x=", "\\catcode`\\ =", "\\catcode`\\^^M=", "\\catcode`\\\\=", "\\catcode`\\{=", "\\catcode`\\#=", "\\catcode`\\%=", "\\catcode127=",
+    ] {
         v.push(s.to_string());
     }
     v
@@ -96,6 +124,51 @@ fn snippets() -> Vec<String> {
         "\\skip1=\\dimen1 plus \\dimen1 minus \\dimen1 ",
         "\\divide\\skip1 by -1 ",
         "\\the\\skip1 ",
+        // ---- second generation (audit B1, B5, B6, B8): appended ----
+        "\\newIntArray\\vpx 3 \\let\\c=\\vpx \\c 1=4 ",
+        "{\\newIntArray\\vpx 1 }\\vpx 0=1 ",
+        "\\newIntArray\\vpx 3 {\\newIntArray\\vpx 1 }\\vpx 2=1 ",
+        "\\newIntArray\\vpx 1 {\\newIntArray\\vpx 3 \\global\\let\\c=\\vpx }\\c 2=1 \\the\\c 0 ",
+        "\\newInt\\vpi \\let\\c=\\vpi \\c=3 \\advance\\c by\\c \\the\\c ",
+        "\\catcode`\\_=11 \\catcode0=11 \\newInt_getter_provider_^^@=1 ",
+        "\\catcode`\\_=11 \\catcode0=11 \\the\\newIntArray_getter_provider_^^@ 1 ",
+        "\\catcode`\\_=11 \\catcode0=11 \\advance\\newInt_getter_provider_^^@ by 1 ",
+        "\\def\\a x.{y}\\a x.\\a z",
+        "\\skip1=1pt plus 1fillll minus 1filllll ",
+        "\\input rec ",
+        "\\openin1=fc \\read1 to\\a ",
+        "\\openin1=fd \\read1 to\\a \\read1 to\\b \\a\\b ",
+        "\\openin1=fe \\read1 to\\a \\read1 to\\b ",
+        "\\def\\a#1#2#3#4#5#6#7#8#9{#9#8#7#6#5#4#3#2#1}\\a abcdefghi",
+        "\\def\\a#1#2#3#4#5#6#7#8#9#1{}",
+        "\\def\\a#1#3{}\\def\\b#2{}\\def\\c#1{#2}",
+        "\\dimen1=1pc \\dimen2=1cm \\dimen3=1mm \\dimen4=1bp \\dimen5=1dd \\dimen6=1cc \\the\\dimen6 ",
+        "\\dimen1=16383.99999cc \\dimen2=2147483647dd \\dimen3=16383.99999pc \\dimen4=16383.99999in ",
+        "\\dimen1=1truein \\dimen2=1 true cm \\dimen3=1PT \\dimen4=-.5 TRUE BP ",
+        "\\catcode`\\$=3 \\catcode`\\&=4 \\catcode`\\^^M=5 \\catcode`\\#=6 \\catcode`\\_=8 \\catcode`\\~=13 \\catcode`\\%=14 ",
+        "\\catcode`\\x=14 ax b\nc",
+        "\\catcode`\\x=5 ax b\nc",
+        "\\catcode`\\x=0 xrelax xundefinedcs ",
+        "\\catcode`\\x=9 axb",
+        "\\catcode`\\x=15 axb",
+        "\\catcode`\\x=13 \\def x{y}x",
+        "\\catcode`\\x=6 \\def\\a x1{x1x1}\\a b",
+        "\\catcode`\\x=1 \\catcode`\\y=2 x\\count1=1 y",
+        "\\catcode127=11 \u{7f}\\endlinechar=127 \n\\endlinechar=128 \nx",
+        "\\tracingmacros=2 \\def\\a#1#2{#2#1}\\a x{\\jobname}\\read16 to\\b \\b ",
+        "\\tracingmacros=1 \\openin1=fa \\read1 to\\a \\a \\expandafter\\a\\the\\count1 ",
+        "a\r\nb\r\n\r\n\\count1=1\r\n",
+        "\\count1=1\t\\advance\\count1 BY 2 \\dimen1=1PT \\skip1=1pt PLUS 1FILL ",
+        "\\newline\\par\\par x\\\\ ",
+        "\\help \\doc\\count \\doc\\undefinedcs \\exit x",
+        "\\dumpFormat=3 \\dumpValidate=1 \\the\\dumpFormat ",
+        "\\read16 to\\a \\read16 to\\b \\read16 to\\c \\read16 to\\a ",
+        "\\read-1 to\\a \\a ",
+        "\\input /vpwd/fa ",
+        "\\def\\a{\\a}\\a",
+        "\\def\\a{\\a\\a}\\a",
+        "\\def\\a{x\\a}\\a",
+        "\\count1=\u{80}\u{10FFFF}𝔸 \\catcode`𝔸=13 \\def𝔸{x}𝔸\\catcode1114111=15 ",
     ] {
         v.push(s.to_string());
     }
@@ -106,7 +179,17 @@ fn snippets() -> Vec<String> {
 pub enum Elem {
     T(u16),
     S(u8),
+    /// a grammar-shaped statement: template number and the bytes that fill its holes
+    W(u8, Vec<u8>),
 }
+
+/// `opts` bits of a soup: how the VM is configured and driven.
+const O_LENIENT: u8 = 1; // handlers whose undefined_command_handler records the token and continues
+const O_NO_WD: u8 = 2; // vm.working_directory = None
+const O_STDIN_EOF: u8 = 4; // terminal with the end-of-file behaviour of the real stdin
+const O_SCRIPT: u8 = 8; // texlang_stdlib::script::run_to_string with the texcraft binary's extra commands
+const O_SIMPLE_EA: u8 = 16; // the simple \expandafter implementation
+const O_ALL: u8 = 31;
 
 #[derive(Clone, Debug, Serialize, Deserialize)]
 pub struct Soup {
@@ -114,22 +197,230 @@ pub struct Soup {
     pub elems: Vec<Elem>,
     /// truncate the rendered text at this fraction (65535 = keep everything)
     pub cut: u16,
+    #[serde(default)]
+    pub opts: u8,
+    #[serde(default)]
+    pub prelude: u8,
+    #[serde(default)]
+    pub term: u8,
+}
+
+/// assignment-like commands and expansions that each prelude starts (what the state hooks count)
+const PRELUDE_PRIMS: [u64; 4] = [0, 5, 5, 6];
+const MODES: [&str; 5] = ["", "\\errorstopmode ", "\\scrollmode ", "\\nonstopmode ", "\\batchmode "];
+
+const PRELUDES: [&str; 4] = [
+    "",
+    "\\def\\a#1{#1#1}\\def\\b{x}\\let\\c=\\count \\catcode`\\~=13 \\def~{\\b}\\newIntArray\\vpx 3 \\newIntArray\\vpy 0 \\newInt\\vpi \\openin1=fa \\openin2=fd ",
+    "\\newIntArray\\vpx 3 \\newIntArray\\vpy 0 \\newInt\\vpi \\def\\a#1#2#3{#3#2#1}\\def\\b x.{y}\\countdef\\c=5 \\catcode`\\~=13 \\let~=\\vpx \\openin1=fe \\openin2=fc ",
+    "\\tracingmacros=1 \\catcode`\\~=13 \\def~#1{\\b#1}\\def\\b{\\count1 }\\def\\a#1.#2{#2}\\openin1=fa \\openin2=fd \\newIntArray\\vpx 3 \\newIntArray\\vpy 0 \\newInt\\vpi \\let\\c=\\vpi ",
+];
+
+/// Scripted terminals (every line as a real terminal delivers it: with its newline).
+fn terminal(i: u8) -> Vec<String> {
+    let t: &[&str] = match i % 5 {
+        0 => &["terminal line one\n", "{second\n", "third}\n"],
+        1 => &[],
+        2 => &["{\n"],
+        3 => &["}x\n", "a\u{7f}b\n", "é日\n"],
+        _ => &["\\a #1\n", "{{\n", "}\n", "}\n", "%\n", "\n", "\\undefinedcs\n"],
+    };
+    t.iter().map(|s| s.to_string()).collect()
+}
+
+// ------------------------------------------------------------------------------------------------
+// Grammar-shaped statements (Elem::W). Every hole is filled from a pool by one byte of the case, so
+// the statement is a pure function of the case; the pools contain the legal values, the values at and
+// beyond every limit and a few wrong-typed fillers.
+
+struct Holes<'a> {
+    b: &'a [u8],
+    i: usize,
+}
+
+impl<'a> Holes<'a> {
+    fn next(&mut self) -> usize {
+        let v = self.b.get(self.i).copied().unwrap_or(0);
+        self.i += 1;
+        v as usize
+    }
+    /// Two bytes per hole: the first decides (1 in 20) whether the filler comes from the pool's tail of
+    /// `RARE` entries (the ones that usually end the run), the second selects the entry.
+    fn pick(&mut self, pool: &Pool) -> &'static str {
+        let (list, rare) = (pool.0, pool.1);
+        let sel = self.next();
+        let v = self.next();
+        let common = list.len() - rare;
+        if rare > 0 && (sel % 20 == 19 || common == 0) {
+            list[common + v % rare]
+        } else {
+            list[v % common]
+        }
+    }
+}
+
+/// (entries, number of trailing entries that are rare)
+type Pool = (&'static [&'static str], usize);
+
+const P_NUM: Pool = (&["1", "0", "2", "3", "4", "5", "6", "7", "8", "9", "10", "11", "12", "13", "14", "15", "16", "17", "127", "128", "255", "256", "32767", "32768", "65535", "65536", "55296", "57343", "1114111", "1114112", "1073741823", "1073741824", "2147483647", "2147483648", "99999999999999999999", "-1", "-2147483647", "--5", "+-+3", "'777", "'8", "\"FF", "\"G", "\"7FFF", "\"8000", "`a", "`\\a", "`\\^^M", "`é", "`𝔸", "\\count1 ", "\\count255 ", "-\\count1 ", "\\dimen1 ", "\\skip1 ", "\\catcode`\\a ", "\\vpi ", "\\vpx 1 ", "\\time ", "\\year ", "\\endlinechar ", "x", "\\the\\count1 ", "`", "\\c ", "\\b ", "\\toks1 ", "\\vpx 3 ", "\\relax ", ""], 7);
+const P_REG: Pool = (&["1", "0", "2", "3", "255", "\\count1 ", "32767", "256", "32768", "-1", "\\c ", "\\vpi "], 5);
+const P_FACTOR: Pool = (&["1", "0", "-1", "0.5", ".5", "1.", "1,5", "16383.99999", "16384", "-16383.99999", "1073741823", "2147483647", "4.4", "7227", "\\count1 ", "-\\count2 ", "\"10", "'17", "0.0000076293945", "99999.99999999999999", ""], 1);
+const P_UNIT: Pool = (&["pt", "sp", "in", "pc", "cm", "mm", "bp", "dd", "cc", "em", "ex", "true pt", "truein", "true cc", "PT", "Cm", " pt", "\\dimen1 ", "\\skip1 ", "\\count1 ", "fil", "p t", "xx", ""], 4);
+const P_FIL: Pool = (&["fil", "fill", "filll", "fillll", "filllll", "FILL", "fil l", "Fi L", "pt", "true in", "\\dimen1 ", "cc", ""], 1);
+const P_CS: Pool = (&["\\a", "\\b", "\\c", "~", "\\vpx", "\\vpy", "\\vpi", "\\count", "\\relax", "\\the", "\\year", "\\dimen", "\\jobname", "\\undefinedcs", "\\fi", "\\par", "\\def", "\\catcode", "\\else", "\\global", "\\endinput", "\\input", "\\ifnum", "x", "{", "}", "#", " "], 15);
+const P_NAME: Pool = (&["\\a", "\\b", "\\c", "~", "\\a", "\\b", "\\vpx", "\\vpi", "\\par", "\\count", "\\fi", "x", "\\a\\b", ""], 8);
+const P_CHAR: Pool = (&["`\\z", "`\\j", "`\\q", "`\\$", "`\\&", "`\\^", "`\\_", "`\\~", "`é", "`日", "`𝔸", "0", "127", "128", "255", "256", "1114111", "`\\x", "`\\a", "`\\{", "`\\}", "`\\\\", "`\\#", "`\\%", "`\\ ", "`\\^^M", "`\\1", "`\\=", "1114112", "55296", "-1", "\\count1 "], 15);
+const P_CAT: Pool = (&["11", "12", "0", "1", "2", "3", "4", "5", "6", "7", "8", "9", "10", "13", "14", "15", "16", "-1", "\\count1 "], 0);
+const P_FILE: Pool = (&["fa", "fb", "fc", "fd", "fe", "rec", "nofile", "missing", "a:b", "x>y", "/abs/path", "/vpwd/fa", "fa.tex", "../fa", "fa.", ".tex", "é", "\\jobname", "\\b", ""], 0);
+const P_STREAM: Pool = (&["1", "2", "0", "15", "1", "2", "16", "-1", "17", "\\count1 ", ""], 5);
+const P_TEXT: Pool = (&["a", "b", "x", "é", "日", "𝔸", " ", "\n", "\r\n", "\t", "~", "$", "&", "^", "_", "%c\n", "\n\n", "^^M", "^^5a", "\\ ", "\\\\", "abc def", "."], 0);
+const P_PARAMS: Pool = (&["", "#1", "#1#2", "#1#2#3", "#1#2#3#4#5#6#7#8#9", "#1#2#3#4#5#6#7#8#9#1", "#1.", "x.", "x#1y#2z", "#1#{", "#2", "#", "#1#1", "#0", "#1 #2 ", "#1\\b#2", ".#1.#2.", "#a"], 0);
+const P_BODY: Pool = (&["", "#1", "#2#1", "#1#1", "#3#2#1", "#9#8#7#6#5#4#3#2#1", "\\b x", "{#1}", "##", "x", "\\count1=#1 ", "\\ifnum#1<#2 a\\else b\\fi", "\\def\\b##1{##1#1}", "\\the\\count#1 ", "\\expandafter\\a\\b", "\\a", "#1\\fi", "\\else", "#", "#4", "\\a#1", "#1\\a"], 8);
+const P_ARGS: Pool = (&["", "x", "xy", "xyz", "{x}{y}", "{x}{y}{z}", "x.", "x.y.", "{a}{b}{c}{d}{e}{f}{g}{h}{i}", "abcdefghi", "z", "{x}.", "1 2 ", "{1}{2}{3}", "xay1z2", ".a.b.", " x y", "{}{}{}", "{", "}", "\\par ", "{\\par}", "#", "x#{", "\\b\\c"], 7);
+const P_REL: Pool = (&["<", "=", ">", " < ", "z", "\\relax", ""], 3);
+const P_VAR: Pool = (&["\\count1 ", "\\dimen1 ", "\\skip1 ", "\\count255 ", "\\vpi ", "\\vpx 1 ", "\\year ", "\\time ", "\\catcode`\\z ", "\\mathcode`\\a ", "\\endlinechar ", "\\tracingmacros ", "\\dumpFormat ", "\\toks1 ", "\\globaldefs ", "\\c ", "\\c 1 ", "\\count256 ", "\\dimen32767 ", "\\skip32768 ", "\\vpx 3 ", "\\vpy 0 ", "\\a ", "\\relax ", "\\nullfont ", "x"], 12);
+const P_PREFIX: Pool = (&["", "\\global", "\\long", "\\outer", "\\global\\long\\outer", "\\global\\global", "\\long\\global"], 0);
+const P_SMALL: Pool = (&["3", "0", "1", "2"], 0);
+/// prefixes for assignments other than definitions (TeX.2021.1213: only \\global is legal there)
+const P_GLOBAL: Pool = (&["", "", "\\global", "\\global\\global", "\\long", "\\outer\\global"], 2);
+const P_IDX: Pool = (&["1", "0", "2", "\\count1 ", "3", "-1", "255", "2147483647", "\\vpi "], 5);
+/// files for \\input: a missing file is a fatal error, so most names exist
+const P_INFILE: Pool = (&["fa", "fb", "nofile", "fb.tex", "/vpwd/fb", "fa.tex", "/vpwd/nofile", "fd", "fe", "rec", "missing", "a:b", ""], 6);
+const P_MODE: Pool = (&["\\scrollmode ", "\\nonstopmode ", "\\batchmode ", "\\errorstopmode "], 1);
+/// statement kinds that are assignments (what a prefix may precede)
+/// (\\chardef, \\mathchardef, \\toksdef and \\read are assignments in TeX but the stdlib refuses a prefix there)
+const ASSIGNMENTS: &[usize] = &[0, 1, 2, 3, 4, 5, 6, 7, 8, 17, 18, 20, 24, 26, 27, 28, 29, 30, 40, 0, 1, 2, 4, 5, 6, 22, 32];
+const P_NOGLOBAL: Pool = (&["", "", "\\global", "\\long"], 2);
+
+const N_STMT: usize = 46;
+
+fn dimen(h: &mut Holes) -> String {
+    format!("{}{}", h.pick(&P_FACTOR), h.pick(&P_UNIT))
+}
+
+fn glue(h: &mut Holes) -> String {
+    let mut s = dimen(h);
+    let shape = h.next() % 6;
+    if shape & 1 != 0 {
+        s.push_str(" plus ");
+        s.push_str(h.pick(&P_FACTOR));
+        s.push_str(h.pick(&P_FIL));
+    }
+    if shape & 2 != 0 {
+        s.push_str(" minus ");
+        s.push_str(h.pick(&P_FACTOR));
+        s.push_str(h.pick(&P_FIL));
+    }
+    s
+}
+
+fn stmt(kind: usize, h: &mut Holes, depth: usize) -> String {
+    let sub = |h: &mut Holes| -> String {
+        if depth >= 3 {
+            return h.pick(&P_TEXT).to_string();
+        }
+        let k = h.next() % N_STMT;
+        stmt(k, h, depth + 1)
+    };
+    match kind % N_STMT {
+        0 => format!("\\count{}={} ", h.pick(&P_REG), h.pick(&P_NUM)),
+        1 => format!("\\dimen{}={} ", h.pick(&P_REG), dimen(h)),
+        2 => format!("\\skip{}={} ", h.pick(&P_REG), glue(h)),
+        3 => format!("\\toks{}={{{}{}}} ", h.pick(&P_REG), h.pick(&P_TEXT), h.pick(&P_BODY)),
+        4 => format!("\\advance\\count{} by {} ", h.pick(&P_REG), h.pick(&P_NUM)),
+        5 => format!("\\advance\\dimen{} by {} ", h.pick(&P_REG), dimen(h)),
+        6 => format!("\\advance\\skip{} by {} ", h.pick(&P_REG), glue(h)),
+        7 => format!("\\multiply{}by {} ", h.pick(&P_VAR), h.pick(&P_NUM)),
+        8 => format!("\\divide{}by {} ", h.pick(&P_VAR), h.pick(&P_NUM)),
+        9 => format!("\\the{}", h.pick(&P_VAR)),
+        10 => format!("\\ifnum{}{}{} {}\\else {}\\fi ", h.pick(&P_NUM), h.pick(&P_REL), h.pick(&P_NUM), sub(h), sub(h)),
+        11 => format!("\\ifodd{} {}\\fi ", h.pick(&P_NUM), sub(h)),
+        12 => format!("\\ifcase{} {}\\or {}\\or {}\\else {}\\fi ", h.pick(&P_NUM), sub(h), sub(h), sub(h), sub(h)),
+        13 => format!("\\ifeof{} {}\\else {}\\fi ", h.pick(&P_STREAM), sub(h), sub(h)),
+        14 => format!("{} {}\\else {}\\fi ", ["\\iftrue", "\\iffalse"][h.next() % 2], sub(h), sub(h)),
+        15 => format!("{{{}{}}}", sub(h), sub(h)),
+        16 => {
+            let k = ASSIGNMENTS[h.next() % ASSIGNMENTS.len()];
+            format!("{{\\global{}}}", stmt(k, h, depth + 1))
+        }
+        17 => format!("{}\\def{}{}{{{}}}", h.pick(&P_PREFIX), h.pick(&P_NAME), h.pick(&P_PARAMS), h.pick(&P_BODY)),
+        18 => format!("{}\\gdef{}{}{{{}}}", h.pick(&P_PREFIX), h.pick(&P_NAME), h.pick(&P_PARAMS), h.pick(&P_BODY)),
+        19 => format!("{}{}", ["\\a ", "\\b ", "\\c ", "~"][h.next() % 4], h.pick(&P_ARGS)),
+        20 => format!("{}\\let{}={} ", h.pick(&P_GLOBAL), h.pick(&P_NAME), h.pick(&P_CS)),
+        21 => format!("\\let{} {} ", h.pick(&P_NAME), h.pick(&P_CS)),
+        22 => format!("{}\\chardef{}={} ", h.pick(&P_NOGLOBAL), h.pick(&P_NAME), h.pick(&P_NUM)),
+        23 => format!("\\mathchardef{}={} ", h.pick(&P_NAME), h.pick(&P_NUM)),
+        24 => format!("{}\\countdef{}={} ", h.pick(&P_GLOBAL), h.pick(&P_NAME), h.pick(&P_REG)),
+        25 => format!("\\toksdef{}={} ", h.pick(&P_NAME), h.pick(&P_REG)),
+        26 => format!("{}\\catcode{}={} ", h.pick(&P_GLOBAL), h.pick(&P_CHAR), h.pick(&P_CAT)),
+        27 => format!("\\mathcode{}={} ", h.pick(&P_CHAR), h.pick(&P_NUM)),
+        28 => format!("\\endlinechar={} ", h.pick(&P_NUM)),
+        29 => format!("\\globaldefs={} ", ["1", "-1", "0", "2147483647"][h.next() % 4]),
+        30 => format!("\\tracingmacros={} ", ["2", "1", "0", "-1"][h.next() % 4]),
+        31 => format!("\\openin{}={} ", h.pick(&P_STREAM), h.pick(&P_FILE)),
+        32 => format!("{}\\read{} to{} ", h.pick(&P_NOGLOBAL), h.pick(&P_STREAM), h.pick(&P_NAME)),
+        33 => format!("\\closein{} ", h.pick(&P_STREAM)),
+        34 => format!("\\input {} ", h.pick(&P_INFILE)),
+        // (the trailing "1=1 " completes an assignment if a variable command comes out)
+        35 => format!("\\expandafter{}{} 1=1 ", h.pick(&P_CS), h.pick(&P_CS)),
+        36 => format!("\\expandafter\\expandafter\\expandafter{}\\expandafter{}{} 1=1 ", h.pick(&P_CS), h.pick(&P_CS), h.pick(&P_CS)),
+        37 => format!("\\noexpand{} 1=1 ", h.pick(&P_CS)),
+        38 => format!("\\newInt{} ", h.pick(&P_NAME)),
+        // the array length comes from a pool of small numbers and is followed by \relax: a following
+        // digit can never extend it
+        39 => format!("\\newIntArray{} {}\\relax ", h.pick(&P_NAME), h.pick(&P_SMALL)),
+        40 => format!("{}{}={} ", ["\\vpx ", "\\vpx ", "\\vpy ", "\\c ", "~"][h.next() % 5], h.pick(&P_IDX), h.pick(&P_NUM)),
+        41 => h.pick(&P_MODE).to_string(),
+        42 => format!("{}{}", h.pick(&P_TEXT), h.pick(&P_TEXT)),
+        43 => {
+            let sel = h.next();
+            if sel % 8 == 7 {
+                // defined only when the run installs the script/REPL commands
+                ["\\endinput ", "\\par ", "\\newline ", "\\exit ", "\\help ", "\\doc\\count ", "\\\\"][h.next() % 7].to_string()
+            } else {
+                ["\\jobname ", "\\relax ", "\\year=\\time ", "\\the\\month ", "\\dumpFormat=2 ", "\\vpi=\\vpx 2 ", "\\the\\day ", "\\relax\\relax ", "\\month=\\vpi "][h.next() % 9].to_string()
+            }
+        }
+        // macro programs; one in four is a loop that the step budget must cut
+        // (nothing that doubles its argument per step: the budget counts expansions, not memory)
+        44 => {
+            let sel = h.next();
+            if sel % 4 == 3 {
+                ["\\def\\a{\\a}\\a ", "\\def\\a{\\a\\a}\\a ", "\\def\\a{x\\a}\\a ", "\\def\\a#1{\\a{#1}}\\a x", "\\def\\a{\\expandafter\\a\\b}\\def\\b{\\b}\\a ", "\\def\\a{\\input rec }\\a "][h.next() % 6].to_string()
+            } else {
+                ["\\def\\a#1{\\b#1}\\def\\b#1{#1}\\a x", "\\def\\a#1#2{\\ifnum#1<#2 #1\\else#2\\fi}\\count1=\\a{3}{4} ", "\\def\\a{\\count1}\\a=5 \\advance\\a by\\a ", "\\def\\a#1.{\\dimen1=#1pt}\\a 1.5.", "\\def\\b{\\a}\\def\\a{x}\\expandafter\\def\\expandafter\\c\\expandafter{\\b}\\c ", "{\\def\\a{y}\\gdef\\b{\\a}}\\b "][h.next() % 6].to_string()
+            }
+        }
+        _ => {
+            let k = ASSIGNMENTS[h.next() % ASSIGNMENTS.len()];
+            format!("{}{}", h.pick(&P_GLOBAL), stmt(k, h, depth + 1))
+        }
+    }
+}
+
+fn render_elem(e: &Elem, vocab: &[String], snips: &[String], text: &mut String, has_array: &mut bool) {
+    match e {
+        Elem::T(i) => text.push_str(&vocab[pick_idx(*i, vocab.len())]),
+        Elem::S(i) => {
+            let sn = &snips[*i as usize % snips.len()];
+            if sn.contains("newIntArray") {
+                *has_array = true;
+            }
+            text.push_str(sn);
+        }
+        Elem::W(k, holes) => {
+            let mut h = Holes { b: holes, i: 0 };
+            text.push_str(&stmt(*k as usize, &mut h, 0));
+        }
+    }
 }
 
 fn render(s: &Soup, vocab: &[String], snips: &[String]) -> String {
-    let mut text = String::from(["", "\\errorstopmode ", "\\scrollmode ", "\\nonstopmode ", "\\batchmode "][(s.mode % 5) as usize]);
+    let mut text = String::from(PRELUDES[(s.prelude % 4) as usize]);
+    text.push_str(MODES[(s.mode % 5) as usize]);
     let mut has_array = false;
     for e in &s.elems {
-        match e {
-            Elem::T(i) => text.push_str(&vocab[pick_idx(*i, vocab.len())]),
-            Elem::S(i) => {
-                let sn = &snips[*i as usize % snips.len()];
-                if sn.contains("newIntArray") {
-                    has_array = true;
-                }
-                text.push_str(sn);
-            }
-        }
+        render_elem(e, vocab, snips, &mut text, &mut has_array);
     }
     if s.cut != u16::MAX && !has_array {
         let n = (text.len() * s.cut as usize) >> 16;
@@ -147,16 +438,112 @@ fn files() -> Vec<(String, String)> {
         ("fa.tex".to_string(), "A line\n{two\nlines}\n\\input fb \nlast".to_string()),
         ("fb.tex".to_string(), "B\\endinput C\nD\n".to_string()),
         ("nofile.tex".to_string(), String::new()),
+        // second generation: a file that includes itself, files that \read cannot balance, a file with
+        // an invalid and with non-ASCII characters
+        ("rec.tex".to_string(), "\\input rec ".to_string()),
+        ("fc.tex".to_string(), "{open\n".to_string()),
+        ("fd.tex".to_string(), "a}b\nnext\n".to_string()),
+        ("fe.tex".to_string(), "x\u{7f}\né日\n".to_string()),
     ]
 }
 
-fn check_trace(t: &texlang::token::trace::SourceCodeTrace, what: &str) -> Result<(), String> {
+// ------------------------------------------------------------------------------------------------
+// Location checks
+
+thread_local! {
+    /// The sources of the run in progress on this thread: (origin, content). Origin "" = terminal.
+    static SOURCES: RefCell<Vec<(String, String)>> = const { RefCell::new(vec![]) };
+}
+
+fn check_trace(t: &SourceCodeTrace, what: &str) -> Result<(), String> {
     if t.line_number < 1 {
         return Err(format!("{what}: line number {}", t.line_number));
     }
     let n = t.line_content.chars().count();
     if t.index > n {
         return Err(format!("{what}: column {} beyond the line {:?} ({} chars)", t.index, t.line_content, n));
+    }
+    // the location must lie inside a source that was registered: the line exists in that source
+    SOURCES.with(|src| {
+        let src = src.borrow();
+        if src.is_empty() {
+            return Ok(());
+        }
+        let key = match &t.origin {
+            Origin::File(p) => p.to_string_lossy().to_string(),
+            Origin::Terminal => String::new(),
+        };
+        if key.is_empty() && t.line_content.trim_end().is_empty() {
+            // a terminal read at end of file registers an empty line
+            return Ok(());
+        }
+        let mut known = false;
+        for (name, content) in src.iter() {
+            if *name != key {
+                continue;
+            }
+            known = true;
+            let want = t.line_content.trim_end();
+            if key.is_empty() {
+                // terminal: any of the lines delivered
+                if content.trim_end() == want {
+                    return Ok(());
+                }
+            } else {
+                match content.split('\n').nth(t.line_number - 1) {
+                    Some(l) if l.trim_end() == want => return Ok(()),
+                    _ => {}
+                }
+            }
+        }
+        if !known {
+            if key.is_empty() {
+                return Err(format!("{what}: terminal line {:?} was never delivered", t.line_content));
+            }
+            return Err(format!("{what}: origin {:?} is not a source of this run", key));
+        }
+        Err(format!("{what}: line {} of {:?} is not {:?}", t.line_number, key, t.line_content))
+    })
+}
+
+/// What the property demands of an error, final or recovered: it renders to text, has a title, and
+/// every location it carries lies inside a source.
+fn check_error(e: &TracedTexError) -> Result<(), String> {
+    let title = e.error.title();
+    if title.trim().is_empty() {
+        return Err("the error has an empty title".to_string());
+    }
+    match e.error.kind() {
+        Kind::Token(t) => {
+            let Some(tr) = e.token_traces.get(&t) else { return Err(format!("error {:?} is about a token but carries no trace for it", title)) };
+            check_trace(tr, "token trace")?;
+        }
+        Kind::EndOfInput => {
+            let Some(tr) = &e.end_of_input_trace else { return Err(format!("end-of-input error {:?} carries no end-of-input trace", title)) };
+            check_trace(tr, "end-of-input trace")?;
+        }
+        Kind::FailedPrecondition => match e.error.source_code_trace_override() {
+            Some(tr) => check_trace(tr, "source code trace override")?,
+            None => {
+                if e.stack_trace.is_empty() {
+                    return Err(format!("error {:?} carries no source location (no stack, no trace)", title));
+                }
+            }
+        },
+    }
+    // note tokens: deterministic order is not needed, every trace must be good
+    for tr in e.token_traces.values() {
+        check_trace(tr, "note token trace")?;
+    }
+    if let Some(tr) = &e.end_of_input_trace {
+        check_trace(tr, "end-of-input trace")?;
+    }
+    for el in &e.stack_trace {
+        check_trace(&el.trace, "stack trace")?;
+    }
+    let shown = format!("{}", e);
+    if shown.trim().is_empty() {
+        return Err("the error renders to empty text".to_string());
     }
     Ok(())
 }
@@ -175,10 +562,307 @@ fn known_sig(ctx: &Ctx, p: &PanicInfo) -> Option<String> {
     None
 }
 
+// ------------------------------------------------------------------------------------------------
+// Class names per error title ("every recovery path runs" made measurable)
+
+/// "the letter z" -> "the letter _", "a token with value # " -> "a token with value _".
+fn generalise(title: &str) -> String {
+    let mut out = String::new();
+    let mut rest = title;
+    loop {
+        let hit = [("the letter ", 1usize), ("with value ", 1usize), ("a character ", 1usize)].iter().filter_map(|(m, n)| rest.find(m).map(|i| (i, m.len(), *n))).min();
+        match hit {
+            None => {
+                out.push_str(rest);
+                return out;
+            }
+            Some((i, ml, n)) => {
+                out.push_str(&rest[..i + ml]);
+                out.push('_');
+                let tail = &rest[i + ml..];
+                let skip: usize = tail.chars().take(n).map(|c| c.len_utf8()).sum();
+                rest = &tail[skip..];
+            }
+        }
+    }
+}
+
+fn title_class(prefix: &str, title: &str) -> &'static str {
+    static NAMES: Mutex<Option<HashMap<String, &'static str>>> = Mutex::new(None);
+    // normalise: digits and quoted/variable parts away, bounded length
+    let mut norm = String::new();
+    let mut in_tick = false;
+    let mut last_hash = false;
+    let title = generalise(title);
+    let title = title.as_str();
+    for c in title.chars() {
+        if c == '`' {
+            in_tick = !in_tick;
+            if !in_tick {
+                norm.push('_');
+            }
+            continue;
+        }
+        if in_tick {
+            continue;
+        }
+        if c.is_ascii_digit() {
+            if !last_hash {
+                norm.push('N');
+            }
+            last_hash = true;
+            continue;
+        }
+        last_hash = false;
+        if c.is_ascii() && !c.is_ascii_control() {
+            norm.push(c);
+        } else {
+            norm.push('?');
+        }
+        if norm.len() >= 56 {
+            break;
+        }
+    }
+    let key = format!("{prefix}{norm}");
+    let mut g = NAMES.lock().unwrap();
+    let m = g.get_or_insert_with(HashMap::new);
+    if let Some(s) = m.get(&key) {
+        return s;
+    }
+    if m.len() >= 400 {
+        return "title:(other)";
+    }
+    let leaked: &'static str = Box::leak(key.clone().into_boxed_str());
+    m.insert(key, leaked);
+    leaked
+}
+
+// ------------------------------------------------------------------------------------------------
+// Running
+
+/// Handlers that, unlike the default, survive an undefined command (handlers are the VM's documented
+/// extension point): the token is recorded and the run goes on, so that long programs run long.
+pub struct Lenient;
+
+impl vm::Handlers<HState> for Lenient {
+    fn character_handler(input: &mut vm::ExecutionInput<HState>, token: Token, c: char) -> texlang::prelude::Result<()> {
+        <Capture as vm::Handlers<HState>>::character_handler(input, token, c)
+    }
+    fn unexpanded_expansion_command(input: &mut vm::ExecutionInput<HState>, token: Token) -> texlang::prelude::Result<()> {
+        <Capture as vm::Handlers<HState>>::unexpanded_expansion_command(input, token)
+    }
+    fn undefined_command_handler(input: &mut vm::ExecutionInput<HState>, token: Token) -> texlang::prelude::Result<()> {
+        let o = texvm::tok_to_out(input.vm(), token);
+        input.state_mut().out.push(o);
+        Ok(())
+    }
+    fn math_character_handler(input: &mut vm::ExecutionInput<HState>, token: Token, _m: texlang::types::MathCode) -> texlang::prelude::Result<()> {
+        let o = texvm::tok_to_out(input.vm(), token);
+        input.state_mut().out.push(o);
+        Ok(())
+    }
+}
+
+#[derive(Clone, Debug, Serialize, Deserialize)]
+pub struct Cfg {
+    pub text: String,
+    #[serde(default)]
+    pub opts: u8,
+    #[serde(default)]
+    pub term: u8,
+    /// run this on the same VM afterwards, the way the REPL does (clear_sources, push_source, run)
+    #[serde(default)]
+    pub second: Option<String>,
+}
+
+struct RunStats {
+    err: Option<String>,
+    recovered: u64,
+    prims: u64,
+    titles: Vec<String>,
+}
+
+fn run_vm(vm: &mut vm::VM<HState>, opts: u8) -> Result<(), Box<TracedTexError>> {
+    if opts & O_SCRIPT != 0 {
+        // what the playground calls
+        texlang_stdlib::script::run_to_string(vm).map(|_| ())
+    } else if opts & O_LENIENT != 0 {
+        vm.run::<Lenient>()
+    } else {
+        vm.run::<Capture>()
+    }
+}
+
+/// One run of `vm` judged by the property: Ok or a well-formed error.
+fn judged_run(vm: &mut vm::VM<HState>, opts: u8) -> Result<RunStats, String> {
+    let before = (vm.state.recovered_errors.get(), vm.state.steps.get() + vm.state.assignments.get());
+    vm.state.recovered_titles.borrow_mut().clear();
+    let res = run_vm(vm, opts);
+    if let Some(m) = vm.state.hook_failure.borrow_mut().take() {
+        return Err(format!("recovered error: {m}"));
+    }
+    let recovered = vm.state.recovered_errors.get() - before.0;
+    let prims = vm.state.steps.get() + vm.state.assignments.get() - before.1;
+    let titles = std::mem::take(&mut *vm.state.recovered_titles.borrow_mut());
+    let err = match res {
+        Ok(()) => None,
+        Err(e) => {
+            check_error(&e).map_err(|m| format!("final error: {m}"))?;
+            Some(e.error.title())
+        }
+    };
+    Ok(RunStats { err, recovered, prims, titles })
+}
+
+/// `prelude_prims`: primitives started by the prelude, not counted as depth of the case.
+fn run_cfg(ctx: &Ctx, cfg: &Cfg, nelems: usize, case: &mut Case) -> Verdict {
+    run_cfg_at(ctx, cfg, nelems, 0, case)
+}
+
+/// Debugging aid: VP_C09_SAMPLE=n prints every case whose text hash is divisible by n (1 = all).
+fn debug_sample() -> u64 {
+    static N: std::sync::OnceLock<u64> = std::sync::OnceLock::new();
+    *N.get_or_init(|| std::env::var("VP_C09_SAMPLE").ok().and_then(|v| v.parse().ok()).unwrap_or(0))
+}
+
+fn run_cfg_at(ctx: &Ctx, cfg: &Cfg, nelems: usize, prelude_prims: u64, case: &mut Case) -> Verdict {
+    let text = &cfg.text;
+    case.note = Some(match &cfg.second {
+        None => format!("[opts {} term {}] {}", cfg.opts, cfg.term, text),
+        Some(s) => format!("[opts {} term {}] {} ||second run|| {}", cfg.opts, cfg.term, text, s),
+    });
+    let term = terminal(cfg.term);
+    let spin = Rc::new(Cell::new(false));
+    let stuck = Rc::new(Cell::new(false));
+    let fl = files();
+    let source_chars: usize = text.len() + cfg.second.as_ref().map(|s| s.len()).unwrap_or(0) + fl.iter().map(|f| f.1.len()).sum::<usize>() + term.iter().map(|l| l.len()).sum::<usize>();
+    let vmo = VmOptions {
+        files: fl.clone(),
+        terminal: term.clone(),
+        budget: 3_000,
+        no_working_directory: cfg.opts & O_NO_WD != 0,
+        stdin_like_terminal: cfg.opts & O_STDIN_EOF != 0,
+        terminal_read_cap: 64,
+        terminal_spin: Some(spin.clone()),
+        dump_params: true,
+        script_commands: cfg.opts & O_SCRIPT != 0,
+        simple_expandafter: cfg.opts & O_SIMPLE_EA != 0,
+        trace_macros: true,
+        record_titles: true,
+        recovered_check: Some(check_error),
+        // every error consumes input: far more errors than source characters without a single expansion
+        // in between means the recovery does not advance
+        no_progress_limit: 8 * source_chars as u64 + 100,
+        no_progress: Some(stuck.clone()),
+        ..Default::default()
+    };
+    case.class_if(cfg.opts & O_LENIENT != 0 && cfg.opts & O_SCRIPT == 0, "run:lenient handlers");
+    case.class_if(cfg.opts & O_NO_WD != 0, "run:no working directory");
+    case.class_if(cfg.opts & O_STDIN_EOF != 0, "run:stdin-like terminal");
+    case.class_if(cfg.opts & O_SCRIPT != 0, "run:script::run_to_string");
+    case.class_if(cfg.opts & O_SIMPLE_EA != 0, "run:simple expandafter");
+    // sources for the location checks
+    let mut sources: Vec<(String, String)> = vec![("input.tex".to_string(), text.clone())];
+    if let Some(s) = &cfg.second {
+        sources.push(("input.tex".to_string(), s.clone()));
+    }
+    for (n, c) in &fl {
+        sources.push((format!("/vpwd/{n}"), c.clone()));
+    }
+    for l in &term {
+        sources.push((String::new(), l.clone()));
+    }
+    SOURCES.with(|s| *s.borrow_mut() = sources);
+    let r = panics::catch(|| {
+        let mut vm = texvm::new_vm(&vmo);
+        if vm.push_source("input.tex".to_string(), text.clone()).is_err() {
+            return Err("push_source failed".to_string());
+        }
+        let first = judged_run(&mut vm, cfg.opts)?;
+        let second = match &cfg.second {
+            None => None,
+            Some(s) => {
+                // REPL protocol (texlang_stdlib::repl::start)
+                vm.clear_sources();
+                if vm.push_source("input.tex".to_string(), s.clone()).is_err() {
+                    return Err("second push_source failed".to_string());
+                }
+                vm.state.steps.set(0);
+                Some(judged_run(&mut vm, cfg.opts).map_err(|m| format!("second run on the same VM: {m}"))?)
+            }
+        };
+        Ok((first, second, vm.state.trace_macro_bytes.get()))
+    });
+    SOURCES.with(|s| s.borrow_mut().clear());
+    if spin.get() {
+        return Verdict::Fail(format!("\\read does not end: the terminal is at end of file and was read {} more times (TeX.2021.71: fatal_error(\"End of file on the terminal!\"))\ninput: {:?} terminal: {:?}", 64, text, term));
+    }
+    if stuck.get() {
+        return Verdict::Fail(format!("error recovery does not advance: more than {} recoverable errors without a single expansion on {} source characters\ninput: {:?}", vmo.no_progress_limit, source_chars, text));
+    }
+    if debug_sample() > 0 && fnv64(text.as_bytes()) % debug_sample() == 0 {
+        if let Ok(Ok((first, second, _))) = &r {
+            eprintln!("[c09] {:?}\n      -> err={:?} recovered={} prims={} second={:?}", case.note.clone().unwrap_or_default(), first.err, first.recovered, first.prims, second.as_ref().map(|s| (&s.err, s.recovered, s.prims)));
+        }
+    }
+    match r {
+        Ok(Ok((first, second, traced))) => {
+            let mut nontrivial = false;
+            for (i, mut st) in [Some(first), second].into_iter().flatten().enumerate() {
+                let pre = if i == 0 { "" } else { "2nd:" };
+                if i == 0 {
+                    st.prims = st.prims.saturating_sub(prelude_prims);
+                }
+                if i == 0 {
+                    case.class_if(st.err.is_some(), "ends in error");
+                    case.class_if(st.err.is_none(), "ends in success");
+                    case.class_if(st.recovered > 0, "recovered errors");
+                    case.class_if(st.recovered >= 5, "recovered >= 5 errors");
+                    case.class_if(st.prims >= 3, "executed >= 3 primitives");
+                    case.class_if(st.prims >= 8, "executed >= 8 primitives");
+                    case.class_if(st.prims >= 20, "executed >= 20 primitives");
+                    case.class_if(st.prims >= 50, "executed >= 50 primitives");
+                } else {
+                    case.class_if(st.err.is_some(), "2nd run ends in error");
+                    case.class_if(st.err.is_none(), "2nd run ends in success");
+                    case.class_if(st.prims >= 3, "2nd run executed >= 3 primitives");
+                }
+                if let Some(t) = &st.err {
+                    case.class(title_class(&format!("{pre}fatal:"), t));
+                }
+                let mut seen: Vec<&'static str> = vec![];
+                for t in &st.titles {
+                    let c = title_class(&format!("{pre}recov:"), t);
+                    if !seen.contains(&c) {
+                        seen.push(c);
+                        case.class(c);
+                    }
+                }
+                nontrivial |= st.prims >= 3 && (st.err.is_some() || st.recovered > 0);
+            }
+            case.class_if(traced > 0, "tracingmacros output computed");
+            Verdict::pass(nelems >= 2 && nontrivial)
+        }
+        Ok(Err(msg)) => Verdict::Fail(format!("{}\ninput: {:?}", msg, case.note.clone().unwrap_or_default())),
+        Err(p) => {
+            if p.budget {
+                return Verdict::Skip("budget");
+            }
+            if let Some(sig) = known_sig(ctx, &p) {
+                return Verdict::Known(sig);
+            }
+            Verdict::Fail(format!("panic at {}: {}\nsignature: {}\ninput: {:?}", p.site(), p.message, p.signature(), case.note.clone().unwrap_or_default()))
+        }
+    }
+}
+
 fn oracle(ctx: &Ctx, s: &Soup, vocab: &[String], snips: &[String], case: &mut Case) -> Verdict {
     let text = render(s, vocab, snips);
     case.class(["mode:default", "mode:errorstop", "mode:scroll", "mode:nonstop", "mode:batch"][(s.mode % 5) as usize]);
-    oracle_text(ctx, text, s.elems.len(), case)
+    let nw = s.elems.iter().filter(|e| matches!(e, Elem::W(..))).count();
+    case.class_if(nw > 0, "has grammar-shaped statements");
+    case.class_if(s.prelude % 4 != 0, "has prelude");
+    run_cfg_at(ctx, &Cfg { text, opts: s.opts & O_ALL, term: s.term, second: None }, s.elems.len(), PRELUDE_PRIMS[(s.prelude % 4) as usize], case)
 }
 
 /// Inputs that crashed the pinned tree before the `fix:` commits (kept as a seconds-long replay tier).
@@ -208,9 +892,54 @@ fn regression_inputs() -> Vec<String> {
         "\\def\\a#1.{[#1]}\\a{x}{y}.",
     ];
     let mut v = vec![];
-    for mode in ["", "\\errorstopmode ", "\\scrollmode ", "\\nonstopmode ", "\\batchmode "] {
+    for mode in MODES {
         for b in base {
             v.push(format!("{}{}", mode, b));
+        }
+    }
+    v
+}
+
+/// VM configurations and inputs that the soups reach only rarely (audit B1, B2, B3): every input under
+/// every mode prefix, with and without a working directory, with the scripted terminal failing or
+/// behaving like the real stdin at end of file.
+fn config_matrix() -> Vec<Cfg> {
+    let inputs = [
+        "\\input fa ",
+        "\\openin1=fa \\read1 to\\a \\a ",
+        "\\openin1=fa \\ifeof1 A\\else B\\fi ",
+        "\\input /abs/path ",
+        "\\input /vpwd/fa ",
+        "\\openin1=/vpwd/fd \\read1 to\\a \\read1 to\\b ",
+        "\\input ",
+        "\\input .tex ",
+        "\\read16 to\\a ",
+        "\\read16 to\\a \\a \\read16 to\\a \\a \\read16 to\\a \\read16 to\\a \\read16 to\\a \\read16 to\\a \\read16 to\\a \\read16 to\\a ",
+        "\\read-1 to\\a \\a ",
+        "\\read1 to\\a \\read2 to\\a \\read15 to\\a ",
+        "\\global\\read16 to~~",
+        "\\catcode`\\{=12 \\read16 to\\a \\read16 to\\a \\read16 to\\a ",
+        "\\endlinechar=-1 \\read16 to\\a \\read16 to\\a \\read16 to\\a ",
+        "\\newIntArray\\vpx 3 \\let\\c=\\vpx \\c 1=4 ",
+        "\\newIntArray\\vpx 3 \\let\\c=\\vpx \\the\\c 1 ",
+        "\\newIntArray\\vpx 3 \\let\\c=\\vpx \\advance\\c 1 by 2 ",
+        "\\newIntArray~3 \\let\\c=~\\c 1=4 ",
+        "\\catcode`\\_=11 \\catcode0=11 \\newInt_getter_provider_^^@=1 ",
+        "\\catcode`\\_=11 \\catcode0=11 \\the\\newInt_getter_provider_^^@ ",
+        "\\catcode`\\_=11 \\catcode0=11 \\newIntArray_getter_provider_^^@ 1=1 ",
+        "\\catcode`\\_=11 \\catcode0=11 \\let\\c=\\newIntArray_getter_provider_^^@ \\newIntArray\\c 2 \\c 1=1 ",
+    ];
+    let mut v = vec![];
+    for input in inputs {
+        for mode in MODES {
+            for opts in [0u8, O_NO_WD, O_STDIN_EOF, O_NO_WD | O_STDIN_EOF | O_LENIENT, O_SCRIPT | O_STDIN_EOF] {
+                for term in 0u8..5 {
+                    if term != 0 && !input.contains("\\read") {
+                        continue;
+                    }
+                    v.push(Cfg { text: format!("{}{}", mode, input), opts, term, second: None });
+                }
+            }
         }
     }
     v
@@ -252,97 +981,128 @@ fn limit_programs() -> Vec<String> {
     v
 }
 
+/// Every unit with factors at the limits of the conversion (TeX.2021.458: the conversion fractions
+/// keep the intermediate below 2^30 times the numerator bound), in a dimension, a stretch and with `true`.
+fn unit_programs() -> Vec<String> {
+    let mut v = vec![];
+    for unit in ["pt", "sp", "in", "pc", "cm", "mm", "bp", "dd", "cc", "em", "ex", "PT", "Cc", "fil", "fill", "filll", "fillll", "xx", ""] {
+        for factor in ["0", "1", "-1", ".5", "16383", "16383.99999", "16383.99998474121", "16384", "1073741823", "1073741824", "2147483647", "2147483648", "5758.31742", "5758.31743", "1157.54373", "226.74540", "1.00000000000000000001", "\\count1 ", "-\\count1 "] {
+            for tr in ["", "true ", "true"] {
+                if tr == "true" && !factor.ends_with('3') {
+                    continue;
+                }
+                v.push(format!("\\count1=2147483647 \\dimen1={factor}{tr}{unit} \\the\\dimen1 \\skip1=1pt plus {factor}{tr}{unit} minus -{factor}{unit} \\the\\skip1 \\advance\\dimen1 by {factor}{unit} \\relax "));
+            }
+        }
+    }
+    v
+}
+
 fn oracle_text(ctx: &Ctx, text: String, nelems: usize, case: &mut Case) -> Verdict {
-    case.note = Some(text.clone());
-    let opts = VmOptions { files: files(), terminal: vec!["terminal line one\n".into(), "{second\n".into(), "third}\n".into()], budget: 3_000, ..Default::default() };
-    let r = panics::catch(|| {
-        let mut vm = texvm::new_vm(&opts);
-        if vm.push_source("input.tex".to_string(), text.clone()).is_err() {
-            return Err("push_source failed".to_string());
-        }
-        let res = vm.run::<Capture>();
-        let recovered = vm.state.recovered_errors.get();
-        match res {
-            Ok(()) => Ok((None, recovered, vm.state.steps.get())),
-            Err(e) => {
-                let shown = format!("{}", e);
-                if shown.trim().is_empty() {
-                    return Err("the error renders to empty text".to_string());
-                }
-                let title = e.error.title();
-                if title.trim().is_empty() {
-                    return Err("the error has an empty title".to_string());
-                }
-                // location
-                match e.error.kind() {
-                    Kind::Token(t) => {
-                        let Some(tr) = e.token_traces.get(&t) else { return Err(format!("error {:?} is about a token but carries no trace for it", title)) };
-                        check_trace(tr, "token trace")?;
-                    }
-                    Kind::EndOfInput => {
-                        let Some(tr) = &e.end_of_input_trace else { return Err(format!("end-of-input error {:?} carries no end-of-input trace", title)) };
-                        check_trace(tr, "end-of-input trace")?;
-                    }
-                    Kind::FailedPrecondition => {
-                        for el in &e.stack_trace {
-                            check_trace(&el.trace, "stack trace")?;
-                        }
-                    }
-                }
-                for el in &e.stack_trace {
-                    check_trace(&el.trace, "stack trace")?;
-                }
-                Ok((Some(title), recovered, vm.state.steps.get()))
-            }
-        }
-    });
-    match r {
-        Ok(Ok((err, recovered, steps))) => {
-            case.class_if(err.is_some(), "ends in error");
-            case.class_if(err.is_none(), "ends in success");
-            case.class_if(recovered > 0, "recovered errors");
-            { let _ = steps; Verdict::pass(nelems >= 2 && (err.is_some() || recovered > 0)) }
-        }
-        Ok(Err(msg)) => Verdict::Fail(format!("{}\ninput: {:?}", msg, text)),
-        Err(p) => {
-            if p.budget {
-                return Verdict::Skip("budget");
-            }
-            if !case.replay || true {
-                if let Some(sig) = known_sig(ctx, &p) {
-                    return Verdict::Known(sig);
-                }
-            }
-            Verdict::Fail(format!("panic at {}: {}\nsignature: {}\ninput: {:?}", p.site(), p.message, p.signature(), text))
-        }
+    run_cfg(ctx, &Cfg { text, opts: 0, term: 0, second: None }, nelems, case)
+}
+
+fn mode_strategy(deep: bool) -> BoxedStrategy<u8> {
+    if deep {
+        // two of the five prefixes stop at the first recoverable error: give the other three more weight
+        prop_oneof![1 => Just(0u8), 1 => Just(1u8), 3 => Just(2u8), 3 => Just(3u8), 3 => Just(4u8)].boxed()
+    } else {
+        (0u8..5).boxed()
     }
 }
 
+fn elem_strategy(nsnip: usize, wt: u32, ws: u32, ww: u32) -> impl Strategy<Value = Elem> {
+    prop_oneof![
+        wt => any::<u16>().prop_map(Elem::T),
+        ws => (0..nsnip as u8).prop_map(Elem::S),
+        ww => (0u8..N_STMT as u8, proptest::collection::vec(any::<u8>(), 28)).prop_map(|(k, h)| Elem::W(k, h)),
+    ]
+}
+
+/// The first-generation soup: uniform vocabulary items and snippets, default VM configuration.
 fn soup_strategy(nsnip: usize, max: usize) -> impl Strategy<Value = Soup> {
-    let elem = prop_oneof![5 => any::<u16>().prop_map(Elem::T), 2 => (0..nsnip as u8).prop_map(Elem::S)];
-    (0u8..5, proptest::collection::vec(elem, 0..max), prop_oneof![3 => Just(u16::MAX), 1 => any::<u16>()]).prop_map(|(mode, elems, cut)| Soup { mode, elems, cut })
+    (0u8..5, proptest::collection::vec(elem_strategy(nsnip, 5, 2, 0), 0..max), prop_oneof![3 => Just(u16::MAX), 1 => any::<u16>()]).prop_map(|(mode, elems, cut)| Soup { mode, elems, cut, opts: 0, prelude: 0, term: 0 })
+}
+
+/// Second generation: mostly grammar-shaped statements with some vocabulary noise, a prelude that
+/// defines the user macros, weighted modes, every VM configuration.
+fn deep_strategy(nsnip: usize, max: usize) -> impl Strategy<Value = Soup> {
+    (
+        mode_strategy(true),
+        proptest::collection::vec(elem_strategy(nsnip, 1, 1, 22), 1..max),
+        prop_oneof![5 => Just(u16::MAX), 1 => any::<u16>()],
+        // configuration bits: lenient handlers in half of the runs, the rarer configurations in a share
+        (prop_oneof![1 => Just(0u8), 1 => Just(O_LENIENT)], prop_oneof![5 => Just(0u8), 1 => Just(O_NO_WD)], prop_oneof![2 => Just(0u8), 1 => Just(O_STDIN_EOF)], prop_oneof![4 => Just(0u8), 1 => Just(O_SCRIPT)], prop_oneof![4 => Just(0u8), 1 => Just(O_SIMPLE_EA)]),
+        prop_oneof![1 => Just(0u8), 2 => Just(1u8), 2 => Just(2u8), 1 => Just(3u8)],
+        0u8..5,
+    )
+        .prop_map(|(mode, elems, cut, (a, b, c, d, e), prelude, term)| Soup { mode, elems, cut, opts: a | b | c | d | e, prelude, term })
+}
+
+#[derive(Clone, Debug, Serialize, Deserialize)]
+pub struct Twice {
+    pub first: Soup,
+    pub second: Soup,
 }
 
 pub fn run(ctx: &Ctx) {
     run_fuzz_raw(ctx, fuzz_entry);
-    ctx.rule("inputs = token soups over every installed primitive, user macros, braces, #, numbers at and beyond every limit, units and keywords, ^^ forms, non-ASCII characters, newlines, file names (existing, missing, with an area), interleaved with ~100 snippet programs (the stdlib's own error cases and one valid use of every primitive family), optionally truncated at any byte, under a mode prefix (default/errorstop/scroll/nonstop/batch); run under catch_unwind in a VM with an in-memory file system and a scripted terminal: Ok, or an error that renders to non-empty text and whose traces have line>=1 and column<=line length; any panic is a violation. non-trivial = at least 2 soup elements and the run ended in an error or recovered from one; distinct by input text");
-    ctx.assume("\\sleep, \\dumpFormat, \\dumpValidate are not installed (they sleep / write files); \\newIntArray only appears in snippets with small sizes (it allocates what it is told to)");
+    ctx.rule("inputs = token soups over every installed primitive, user macros, handles made by \\newInt/\\newIntArray and \\let copies of them, braces, # and #1..#9, numbers at and beyond every limit, all units and keywords, every category code value, ^^ forms, non-ASCII and 4-byte characters, CRLF, newlines, file names (existing, missing, self-including, unbalanced, with an invalid character, with an area), interleaved with ~150 snippet programs (the stdlib's own error cases and one valid use of every primitive family) and with grammar-shaped statements whose holes are filled from pools of legal, limit and wrong-typed values; optionally truncated at any byte, under a prelude and a mode prefix (default/errorstop/scroll/nonstop/batch); run under catch_unwind in a VM with an in-memory file system and a scripted terminal, in the configurations {default handlers, handlers that survive undefined commands, script::run_to_string with the texcraft binary's extra commands, no working directory, terminal with the end-of-file behaviour of the real stdin, simple \\expandafter}, once or twice on the same VM (REPL protocol): Ok, or an error that renders to non-empty text, has a title and whose traces (of the final AND of every recovered error) lie inside a registered source (line exists and equals the recorded line, column<=line length); any panic, an endless terminal read at end of file and an error recovery that does not advance are violations. non-trivial = at least 2 soup elements, at least 3 primitives started (expansions + assignment-like commands, counted by the state hooks) and the run ended in an error or recovered from one; distinct by input text");
+    ctx.assume("\\sleep is not installed (it sleeps); \\newIntArray only appears in fixed items with small sizes (it allocates what it is told to); \\time \\day \\month \\year are pinned to fixed values (the stdlib reads the wall clock)");
     ctx.assume("programs that exceed the expansion budget (3000 expansions) are cut off and counted as skipped, as the property says");
+    ctx.assume("tracingmacros::hook prints with println! and cannot be captured: the harness state performs the same computations (vm.trace, write_tokens of arguments, replacement and expansion) when \\tracingmacros>0 and discards the text");
     let vocab = vocabulary();
     let snips = snippets();
     run_list(ctx, "regression_inputs", regression_inputs(), |t: &String, case| oracle_text(ctx, t.clone(), 2, case));
     let limits: Vec<String> = limit_programs().into_iter().flat_map(|p| ["", "\\scrollmode ", "\\batchmode "].into_iter().map(move |m| format!("{}{}", m, p))).collect();
     run_list(ctx, "limit_arithmetic", limits, |t: &String, case| oracle_text(ctx, t.clone(), 2, case));
+    let units: Vec<String> = unit_programs().into_iter().flat_map(|p| ["", "\\scrollmode "].into_iter().map(move |m| format!("{}{}", m, p))).collect();
+    run_list(ctx, "limit_units", units, |t: &String, case| oracle_text(ctx, t.clone(), 2, case));
+    run_list(ctx, "config_matrix", config_matrix(), |c: &Cfg, case| run_cfg(ctx, c, 2, case));
     ctx.extra("soup_short", "vocabulary_size", serde_json::json!(vocab.len()));
     ctx.extra("soup_short", "snippets", serde_json::json!(snips.len()));
-    let n = ctx.tier.pick(120_000u64, 3_000_000u64);
+    let n = ctx.tier.pick(70_000u64, 2_000_000u64);
     run_generated(ctx, "soup_short", n, || soup_strategy(snips.len(), 8), |s: &Soup, case| oracle(ctx, s, &vocab, &snips, case));
-    let n = ctx.tier.pick(40_000u64, 1_000_000u64);
+    let n = ctx.tier.pick(20_000u64, 600_000u64);
     run_generated(ctx, "soup_long", n, || soup_strategy(snips.len(), 40), |s: &Soup, case| oracle(ctx, s, &vocab, &snips, case));
+    let n = ctx.tier.pick(30_000u64, 1_500_000u64);
+    run_generated(ctx, "soup_deep", n, || deep_strategy(snips.len(), 24), |s: &Soup, case| oracle(ctx, s, &vocab, &snips, case));
+    let n = ctx.tier.pick(8_000u64, 400_000u64);
+    run_generated(
+        ctx,
+        "repl_two_runs",
+        n,
+        || (deep_strategy(snips.len(), 10), deep_strategy(snips.len(), 10)).prop_map(|(first, second)| Twice { first, second }),
+        |t: &Twice, case| {
+            let text = render(&t.first, &vocab, &snips);
+            // the second run has no prelude of its own: it lives on what the first run left behind
+            let second = render(&Soup { prelude: 0, ..t.second.clone() }, &vocab, &snips);
+            case.class(["mode:default", "mode:errorstop", "mode:scroll", "mode:nonstop", "mode:batch"][(t.first.mode % 5) as usize]);
+            run_cfg_at(ctx, &Cfg { text, opts: t.first.opts & O_ALL, term: t.first.term, second: Some(second) }, t.first.elems.len() + t.second.elems.len(), PRELUDE_PRIMS[(t.first.prelude % 4) as usize], case)
+        },
+    );
     // every snippet alone under every mode, and every pair of vocabulary items (small scope)
     let total = snips.len() as u64 * 5;
-    run_indexed(ctx, "snippets_all_modes", total, true, |i| Soup { mode: (i % 5) as u8, elems: vec![Elem::S((i / 5) as u8)], cut: u16::MAX }, |s: &Soup, case| oracle(ctx, s, &vocab, &snips, case));
+    run_indexed(ctx, "snippets_all_modes", total, true, |i| Soup { mode: (i % 5) as u8, elems: vec![Elem::S((i / 5) as u8)], cut: u16::MAX, opts: 0, prelude: 0, term: 0 }, |s: &Soup, case| oracle(ctx, s, &vocab, &snips, case));
+    // the same under the rarer VM configurations
+    let total = snips.len() as u64 * 5 * 4;
+    run_indexed(
+        ctx,
+        "snippets_all_configs",
+        total,
+        true,
+        |i| {
+            let opts = [O_LENIENT | O_STDIN_EOF, O_SCRIPT, O_NO_WD | O_SIMPLE_EA, O_SCRIPT | O_STDIN_EOF | O_NO_WD][(i % 4) as usize];
+            Soup { mode: ((i / 4) % 5) as u8, elems: vec![Elem::S((i / 20) as u8)], cut: u16::MAX, opts, prelude: (i % 3) as u8, term: ((i / 4) % 5) as u8 }
+        },
+        |s: &Soup, case| oracle(ctx, s, &vocab, &snips, case),
+    );
+    // every statement template with three fixed fillings, alone, in scroll mode (proves each template renders and runs)
+    let total = N_STMT as u64 * 3;
+    run_indexed(ctx, "statement_templates", total, true, |i| Soup { mode: 2, elems: vec![Elem::W((i / 3) as u8, vec![(i % 3) as u8 * 7; 12]), Elem::W((i / 3) as u8, vec![(i % 3) as u8 * 5 + 1; 12])], cut: u16::MAX, opts: O_LENIENT, prelude: 2, term: 0 }, |s: &Soup, case| oracle(ctx, s, &vocab, &snips, case));
     let nv = vocab.len() as u64;
+    // quick: all ordered pairs of the first-generation items (as before) plus every pair that involves
+    // a second-generation item, in the default mode; thorough: all pairs under all five prefixes
     let pairs = ctx.tier.pick(nv * nv, nv * nv * 5);
     let to_idx = |k: u64| -> u16 { (((k << 16) + (1 << 15)) / nv) as u16 };
     run_indexed(
@@ -354,22 +1114,23 @@ pub fn run(ctx: &Ctx) {
             let a = i % nv;
             let b = (i / nv) % nv;
             let mode = (i / (nv * nv)) as u8;
-            Soup { mode, elems: vec![Elem::T(to_idx(a)), Elem::T(to_idx(b))], cut: u16::MAX }
+            Soup { mode, elems: vec![Elem::T(to_idx(a)), Elem::T(to_idx(b))], cut: u16::MAX, opts: 0, prelude: 0, term: 0 }
         },
         |s: &Soup, case| oracle(ctx, s, &vocab, &snips, case),
     );
 }
 
-
 /// Entry point shared by the libFuzzer target and the `fuzz_raw` replay sub-check: the first byte
 /// selects the interaction mode prefix.
 pub fn fuzz_entry(ctx: &Ctx, data: &[u8]) -> Verdict {
     let Some((sel, rest)) = data.split_first() else { return Verdict::pass(false) };
-    let mode = ["", "\\errorstopmode ", "\\scrollmode ", "\\nonstopmode ", "\\batchmode "][(*sel % 5) as usize];
+    let mode = MODES[(*sel % 5) as usize];
     let text = format!("{}{}", mode, String::from_utf8_lossy(rest));
     // \newIntArray allocates what it is told to: keep it out of fuzz inputs
     if text.contains("newIntArray") {
         return Verdict::Skip("\\newIntArray in a fuzz input");
     }
-    oracle_text(ctx, text, 2, &mut Case::default())
+    // bits 3..7 of the selector byte choose the VM configuration (0 for the stored seeds' selectors 0..4)
+    let opts = (*sel / 8) & O_ALL;
+    run_cfg(ctx, &Cfg { text, opts, term: (*sel / 5) % 5 * u8::from(opts != 0), second: None }, 2, &mut Case::default())
 }
